@@ -374,6 +374,25 @@ def run(ctx, res):
                 res.ob(d == 0)
                 if d != 0:
                     res.finding("got|er5", "ER5 is not sh_addr(.got) + H'416900", witness(d))
+    # elements dropped by an iterator filter must not be ones the property needs
+    for pc_, elem, h_ in loadermod.filtered_out(outs):
+        care_ = Mx.AND(pc_, strmodel.exclusivity())
+        if isinstance(elem, Agg) and len(elem.fields) == len(fields_of(facts, PH)) and isinstance(elem.fields[0], SymEnum):
+            if h_ in copy_loops:
+                seg_seen["skip"] = 1     # headers that are not copied are dropped by the filter instead of being skipped in the body
+                bad = Mx.AND(Mx.AND(care_, bv.eq(get(facts, PH, elem, "ty").bits, bv.const(1, 64))), Mx.NOT(bv.is_zero(get(facts, PH, elem, "size_in_file").bits)))
+                res.ob(bad == 0)
+                if bad != 0:
+                    res.finding("segment|load-not-copied", "a PT_LOAD program header is filtered out before the copy loop", witness(bad))
+        elif isinstance(elem, Agg) and len(elem.fields) == 2 and isinstance(elem.fields[0], Opaque) and elem.fields[0].tag == "str":
+            hdr_ = elem.fields[1]
+            if isinstance(hdr_, Ref):
+                hdr_ = None
+            if isinstance(hdr_, Agg) and len(hdr_.fields) == len(fields_of(facts, SH)):
+                bad = Mx.AND(Mx.AND(care_, strmodel.eq_var(elem.fields[0].data, ".got")), Mx.NOT(bv.is_zero(bv.lshr_const(get(facts, SH, hdr_, "size").bits, 2))))
+                res.ob(bad == 0)
+                if bad != 0:
+                    res.finding("got|skipped", "a section named .got is filtered out before it is relocated", witness(bad))
     for k, v in list(seg_seen.items()) + list(got_seen.items()):
         res.ob(bool(v))
         if not v:
